@@ -410,8 +410,11 @@ def gen_mutations(rng, info, n, allow_manifest=True, allow_retype=True):
             if k == 'dir+file':
                 muts.append({'m': 'add', 'p': p + '.d/inner', 'k': 'file', 'c': 'i', 'parents': True})
             elif k == 'symlink':
-                muts.append({'m': 'add', 'p': p, 'k': 'symlink',
-                             't': rng.choice(['nowhere', os.path.basename(files[0]) if files else 'x'])})
+                t_ = rng.choice(['nowhere', os.path.basename(files[0]) if files else 'x', None])
+                if t_ is None:
+                    # a stray alias of another directory of the tree (its files appear a second time under new names)
+                    t_ = os.path.relpath(rng.choice(dirs) or '.', d or '.')
+                muts.append({'m': 'add', 'p': p, 'k': 'symlink', 't': t_})
             else:
                 muts.append({'m': 'add', 'p': p, 'k': k, 'c': rand_content(rng)})
         else:
